@@ -277,6 +277,9 @@ func runThoroughExtras(c *Ctx, verifDir, id string) {
 		}
 		fmt.Printf("  self-test: seeded changes detected %d / %d\n", det, len(s))
 	}
+	if r, ok := ex["refactorings"].(map[string]interface{}); ok {
+		fmt.Printf("  self-test: behaviour-preserving refactorings silent %v / %v, false alarms %v\n", r["silent"], r["total"], r["false_alarms"])
+	}
 	if t, ok := ex["second_toolchain"].(map[string]interface{}); ok {
 		fmt.Printf("  second toolchain (%v): identical=%v\n", t["toolchain"], t["identical"])
 		if diffs, ok := t["differences"].([]interface{}); ok {
